@@ -17,13 +17,18 @@ RULE = ("a case = a sequence (history) of calls Q(n,k) / QQ(n,k) / number_of_con
         "adjacency order); Q for all n<=12 and all k "
         "(in and just outside 0..n(n-1)/2), ascending, descending, shuffled and repeated; QQ for n<=6 all k; the counter "
         "on random substrates with <=7 vertices, arbitrary labels, random vertex subsets and focal vertices, all k; the "
+        "counter on STRUCTURED substrates (3 in the corpus, 28 quick / 124 thorough): well-connected blocks (K3..K5, C4, C5, "
+        "K_{2,3}, wheel) glued by thin joints (a bridge, two links, a shared vertex, a path through a new vertex, chains of "
+        "three blocks), i.e. connected induced subgraphs whose edge connectivity, vertex connectivity and minimum degree "
+        "differ, up to 14 (thorough 16) induced edges, random labels, alone or as a proper vertex subset of a larger "
+        "substrate, EVERY k; the "
         "equations on exact polynomial arguments (distinct variables per neighbour, repeated variables, constants), "
         "compared coefficient by coefficient with the model polynomial and judged by the verified checker against the "
-        "exact bond-percolation expectation; THROUGH MessagePassing (2 cases in the corpus, 12 quick / 38 thorough): the K_tau "
+        "exact bond-percolation expectation; THROUGH MessagePassing (2 cases in the corpus, 13 quick / 39 thorough): the K_tau "
         "(tau 2..5, every focal vertex, heterogeneous messages) and C_n (n 3..9, one message for all neighbours) motif of an "
         "edge-disjoint covered network evaluated by MessagePassing.resolve_equation(focal, cover label, messages) on ONE "
         "object per network (iterations=0, theoretical(phi) installs phi), cover labels '<key>-[vertices]-[edges]-<uid>' with "
-        "the integer key chosen per topology in five ways (clique size, EDGE COUNT, index from 1 / from 0, arbitrary), literals "
+        "the integer key chosen per topology in six ways (clique size, EDGE COUNT, index from 1 / from 0, arbitrary, VERTEX COUNT also for cycles), literals "
         "spelled as list / tuple / without spaces / edges as lists, uids overlapping or disjoint from the vertex labels (up to "
         "70000), other motifs of the cover touching the motif (pendant edges, triangles, for cycles their CHORDS covered as "
         "separate 2-cliques), judged by the same checker against the closed form of the motif written in the label; "
@@ -137,6 +142,12 @@ def corpus():
                          ["ncg", [0, 1, 2, 3, 7], sq + [[0, 2], [7, 3]], [1, 2, 3, 7], 0, 2, "g"],
                          ["ncg", [0, 1, 2, 3], sq, [1, 2, 3], 0, 1, "g"], ["ncg", [0, 1, 2], [[0, 1], [1, 2]], [1, 2], 0, 0, "g"],
                          ["ncg", [0, 1, 2], [[0, 1], [1, 2]], [1, 2], 0, 1, "g"]]})
+    # blocks joined by thin joints (edge connectivity < minimum degree): two triangles / two K4 and a bridge, all k
+    import random
+    srng = random.Random(160716)
+    cs.append(_structured_case(srng, 16, blocks=[("K", 3), ("K", 3)], joint="bridge", embed=False))
+    cs.append(_structured_case(srng, 16, blocks=[("K", 4), ("K", 4)], joint="bridge", embed=True))
+    cs.append(_structured_case(srng, 16, blocks=[("K", 4), ("C", 4)], joint="two", embed=False))
     cs.append({"calls": [_clique_call(t) for t in (2, 3, 4)] + [["cycle", n, X(2), X(1)] for n in (3, 4, 5)]})
     cs.append({"calls": [_clique_call(3, [X(2), X(2)]), _clique_call(4, [X(2), CONST(1), CONST(0)]),
                          _clique_call(3, [X(2), X(3)], CONST(1)), ["cycle", 3, CONST(1), X(1)],
@@ -302,6 +313,101 @@ def _ncg_history_case(rng, emax=9):
     return {"calls": calls}
 
 
+# ------------------------------------------------------------------ structured substrates
+# Random graphs on <= 7 vertices almost never separate the graph invariants a "shortcut" may confuse: minimum degree vs
+# EDGE connectivity vs VERTEX connectivity, bridges vs cut vertices, cyclomatic number vs number of cycles.  The smallest
+# connected graph with edge connectivity < minimum degree has 6 vertices and 7 edges (two triangles and a bridge).  These
+# substrates are glued from well-connected BLOCKS (cliques, cycles, K_{2,3}, wheels) by thin JOINTS (a bridge, two
+# parallel links, a shared vertex, a path through a new vertex, a chain of three blocks), relabelled at random, optionally
+# embedded in a larger substrate (pendant vertices / extra chords outside ak), and asked for EVERY k.
+STRUCT_BLOCKS = [("K", 3), ("K", 3), ("K", 4), ("K", 4), ("C", 4), ("C", 5), ("B", 5), ("W", 5), ("K", 5)]
+STRUCT_JOINTS = ["bridge", "bridge", "two", "share", "path", "three"]
+STRUCT_LABELS = list(range(0, 14)) + [17, 40, 63, 64, 65, 100, 257, 1000]
+
+
+def _block(kind, n, base):
+    vs = list(range(base, base + n))
+    if kind == "K":
+        es = [[vs[a], vs[b]] for a in range(n) for b in range(a + 1, n)]
+    elif kind == "C":
+        es = [[vs[a], vs[(a + 1) % n]] for a in range(n)]
+    elif kind == "B":                      # K_{2,n-2}
+        es = [[vs[a], vs[b]] for a in range(2) for b in range(2, n)]
+    else:                                  # wheel: hub vs[0] + rim
+        rim = vs[1:]
+        es = [[vs[0], r] for r in rim] + [[rim[a], rim[(a + 1) % len(rim)]] for a in range(len(rim))]
+    return vs, es
+
+
+def _structured_graph(rng, emax, blocks=None, joint=None):
+    for _try in range(50):
+        j = joint or rng.choice(STRUCT_JOINTS)
+        nb = 3 if j == "three" else 2
+        bl = blocks or [rng.choice(STRUCT_BLOCKS) for _ in range(nb)]
+        vs, es, parts = [], [], []
+        for kind, n in bl:
+            bv, be = _block(kind, n, len(vs))
+            vs += bv
+            es += be
+            parts.append(bv)
+        for a, b in zip(parts, parts[1:]):
+            jj = rng.choice(["bridge", "two", "share"]) if j == "three" else j
+            if jj == "bridge":
+                es.append([rng.choice(a), rng.choice(b)])
+            elif jj == "two":
+                a2, b2 = rng.sample(a, 2), rng.sample(b, 2)
+                es += [[a2[0], b2[0]], [a2[1], b2[1]]]
+            elif jj == "path":
+                w = len(vs)
+                vs.append(w)
+                es += [[rng.choice(a), w], [w, rng.choice(b)]]
+            else:                          # share: identify one vertex of b with one of a
+                x, y = rng.choice(a), rng.choice(b)
+                es = [[x if u == y else u, x if v == y else v] for u, v in es]
+                vs.remove(y)
+                b[b.index(y)] = x
+        if len(es) <= emax:
+            return vs, es
+    return _structured_graph(rng, emax, blocks=[("K", 3), ("K", 3)], joint="bridge")
+
+
+def _structured_case(rng, emax=14, blocks=None, joint=None, embed=None):
+    vs, es = _structured_graph(rng, emax, blocks, joint)
+    pool = STRUCT_LABELS if rng.random() < 0.5 else range(0, 20)
+    if len(pool) < len(vs) + 3:
+        pool = range(0, len(vs) + 6)
+    lab = rng.sample(pool, len(vs) + 3)
+    m = dict(zip(vs, lab))
+    motif = [m[v] for v in vs]
+    edges = [[m[a], m[b]] if rng.random() < 0.5 else [m[b], m[a]] for a, b in es]
+    nodes = list(motif)
+    if embed if embed is not None else rng.random() < 0.5:
+        # the motif as a PROPER vertex subset of the substrate: pendant vertices / a vertex adjacent to two motif vertices
+        for w in lab[len(vs):len(vs) + rng.randint(1, 3)]:
+            nodes.append(w)
+            for x in rng.sample(motif, rng.randint(1, 2)):
+                edges.append([w, x])
+    rng.shuffle(nodes)
+    rng.shuffle(edges)
+    calls = []
+    i = rng.choice(motif)
+    ak = [v for v in motif if v != i or rng.random() < 0.2]
+    rng.shuffle(ak)
+    ne = _induced_count(nodes, edges, ak, i)
+    ks = list(range(0, ne + 2))
+    rng.shuffle(ks)
+    calls += [["ncg", nodes, edges, ak, i, k] for k in ks]
+    # the same substrate seen from another focal vertex with one vertex left out (a smaller induced subgraph)
+    drop = rng.choice(motif)
+    i2 = rng.choice([v for v in motif if v != drop])
+    ak2 = [v for v in motif if v not in (drop, i2)]
+    rng.shuffle(ak2)
+    ne2 = _induced_count(nodes, edges, ak2, i2)
+    ks2 = list(range(0, ne2 + 1))
+    rng.shuffle(ks2)
+    calls += [["ncg", nodes, edges, ak2, i2, k] for k in ks2[:5]]
+    return {"calls": calls}
+
 
 # ------------------------------------------------------------------ the equations reached through MessagePassing
 # MessagePassing.resolve_equation(focal, cover label, messages) is the library's public route to the motif equations:
@@ -311,7 +417,7 @@ def _ncg_history_case(rng, emax=9):
 # and are judged by the same verified checker as clique_equation / chordless_cycle_equation (closed form of the motif of
 # the label).  opts = {"m": motif, "others": other motifs of the cover (pendant edges, motifs glued at a vertex, for
 # cycles the CHORDS covered as separate 2-cliques), "focal": vertex, "fmt": spelling of the literals}.
-MP_KEYMODES = ["size", "edges", "index", "index0", "big"]
+MP_KEYMODES = ["size", "edges", "index", "index0", "big", "verts"]
 MP_FMTS = ["list", "tight", "tuple", "mixed"]
 MP_LABELS = list(range(0, 16)) + [17, 31, 32, 33, 63, 64, 65, 100, 255, 256, 257, 300, 1000, 70000]
 
@@ -325,6 +431,8 @@ def _mp_key(mode, n, e, i):
         return i + 1
     if mode == "index0":
         return i
+    if mode == "verts":
+        return n            # the vertex count, also for a chordless cycle (a 4-cycle keyed 4 is not a K4)
     return 1000 + 37 * i
 
 
@@ -487,6 +595,12 @@ def generate(rng, tier):
                 ne = _induced_count([0, 1, 2, 3, 4], es, ak, i)
                 calls += [["ncg", [0, 1, 2, 3, 4], es, ak, i, k] for k in range(0, ne + 2)]
             yield {"calls": calls}
+    # structured substrates: well-connected blocks glued by thin joints (min degree / edge connectivity / vertex
+    # connectivity all different), every pair of small blocks under a bridge first, then random ones
+    for b1, b2 in ((("K", 3), ("K", 3)), (("K", 4), ("K", 3)), (("K", 4), ("K", 4)), (("C", 4), ("K", 3))):
+        yield _structured_case(rng, 16, blocks=[b1, b2], joint="bridge", embed=False)
+    for _ in range(120 if thorough else 24):
+        yield _structured_case(rng, 16 if thorough else 14)
     for _ in range(400 if thorough else 70):
         yield _ncg_case(rng, 11 if thorough else 9)
     # histories on ONE graph object edited in place between calls (stale caches, damaged inputs)
